@@ -22,9 +22,29 @@ static char *strrev(char *s) { for (char *a = s, *b = s + strlen(s) - 1; a < b; 
 enum Color { RED, GREEN = 5, BLUE };
 struct BF { int a : 3; unsigned b : 3; signed c : 1; unsigned d : 1; long e : 33; };
 union U { int i; unsigned char b[4]; float f; };
-static long results[200]; static int nr;
+static long results[600]; static int nr;
 #define R(e) (results[nr++] = (long)(e))
+#include <setjmp.h>
+static jmp_buf sjb;
+static int sj_depth(int n) { volatile long pad[8] = {n, n, n, n, n, n, n, n}; if (n == 0) longjmp(sjb, 42); return sj_depth(n - 1) + (int)pad[0]; }
+/* setjmp in every context C11 7.13.1.1p4 allows; each branch taken is recorded, every loop is bounded */
+static void sj_contexts(void) {
+  static int c1, c2, c3, c4, c5, c6;
+  if (setjmp(sjb) == 0) { R(100); sj_depth(50); } else R(101);
+  if (setjmp(sjb) != 42) { if (c1++ < 3) { R(110 + c1); sj_depth(10); } } else R(119);
+  if (42 == setjmp(sjb)) R(129); else if (c2++ < 3) { R(120 + c2); sj_depth(7); }
+  switch (setjmp(sjb)) { case 0: R(130); sj_depth(5); break; case 42: R(131); break; default: R(132); }
+  if (!setjmp(sjb)) { R(140); sj_depth(3); } else R(141);
+  if (setjmp(sjb)) R(151); else { R(150); sj_depth(4); }
+  while (setjmp(sjb) < 42) { if (c3++ > 5) break; R(160); sj_depth(2); }
+  while (setjmp(sjb) <= 41L) { if (c4++ > 5) break; R(170); sj_depth(2); }
+  for (; setjmp(sjb) == 0; ) { if (c5++ > 5) break; R(180); sj_depth(6); }
+  do { R(190 + c6); if (c6++ == 0) sj_depth(1); } while (0 && setjmp(sjb));
+  if (setjmp(sjb) > 0x7fffffffL - 1) R(199); else if (c6++ < 3) { R(198); sj_depth(9); }
+  (void)setjmp(sjb); R(200);
+}
 int main(void) {
+  sj_contexts();
   T t = mk(3); T u = t; u.a++; R(t.a); R(u.a); R(mk(7).a); R((int)mk(2).c); R(mk3(5).c[2]); R(mk24(7).c); R((u = mk(9)).a); R((t, u).a); R((1 ? t : u).a); R((0 ? t : u).b);
   R(sum(3, 1, 2, 3)); R(sum(0)); R((long)dsum(2, 1.5, 2.5)); R(sum(8, 1, 2, 3, 4, 5, 6, 7, 8)); R((long)dsum(10, 1., 2., 3., 4., 5., 6., 7., 8., 9., 10.));
   int q = 5; R(mix("ildpLt", 1, 2L, 3.5, &q, 4.5L, mk24(2))); R(mix("tiLtdl", mk24(1), 2, 1.0L, mk24(3), 2.5, 7L)); R(fwd("iii", 1, 2, 3)); R(fwd("iiiiiiii", 1, 2, 3, 4, 5, 6, 7, 8));
